@@ -426,6 +426,59 @@ fn has_quirk_shape(src: &str) -> bool {
     false
 }
 
+/// Oracle `dropIsNoticed` (Lean) on the real `changed_comment_content(comment, "")`: every text that
+/// rustc_lexer reads as ONE terminated non-doc comment and that has text must count for the safety net.
+fn must_change_case(o: &mut Outcome, comment: &str, desc: &str) {
+    let toks = lex(comment);
+    if toks.len() != 1 || !matches!(toks[0].class, TokClass::LineComment { doc: false } | TokClass::BlockComment { doc: false, terminated: true }) {
+        return;
+    }
+    if let Some(changed) = guarded(|| hc::changed_comment_content(comment, "")) {
+        o.push("oracle", "cm.mustchange", format!("cm.mustchange {} {}", enc_str(comment), changed as u8), "ok".into(), desc.into(), comment.len() > 4);
+    }
+}
+
+fn part_must_change(o: &mut Outcome, rng: &mut Rng, thorough: bool) {
+    // every comment the search injects
+    let ts = templates();
+    for style in styles_of(&ts) {
+        for t in ts.iter().take(3) {
+            for h in [t.holes.first(), t.holes.last()].into_iter().flatten() {
+                for c in nondoc_comments(&render(t, h, style)) {
+                    must_change_case(o, &c, &format!("style {}", style));
+                }
+            }
+        }
+    }
+    // every block / line comment over a small alphabet (openers that look like doc comments included)
+    for b in all_strings(&['*', '/', '!', ' ', '\n', 'a'], if thorough { 6 } else { 5 }) {
+        must_change_case(o, &format!("/*{}*/", b), "exhaustive-block");
+        if !b.contains('\n') {
+            must_change_case(o, &format!("//{}", b), "exhaustive-line");
+        }
+    }
+    for shape in ["/***{}***/", "/**** {} */", "/********{}********/", "/****\n * {} *\n ****/", "/**/{}*/", "//// {}", "/////{}/////", "/*{}*/", "/* * {} */", "/*\n{}\n*/", "/*\n * {}\n */", "//{}", "//*{}", "/*/{}*/"] {
+        for w in ["x", "c03", "é", "a b", "1", "_", "-", "TODO: x"] {
+            must_change_case(o, &shape.replace("{}", w), "shapes");
+        }
+    }
+    // the comment tokens of fixtures and of random texts
+    let progs = corpus::programs(&["tests/target", "tests/source"]);
+    let start = if progs.is_empty() { 0 } else { rng.below(progs.len()) };
+    for k in 0..(if thorough { progs.len() } else { 120.min(progs.len()) }) {
+        let p = &progs[(start + k) % progs.len()];
+        for c in nondoc_comments(&p.src).into_iter().take(40) {
+            must_change_case(o, &c, &p.name);
+        }
+    }
+    for _ in 0..(if thorough { 20000 } else { 2000 }) {
+        let n = rng.range(1, 8);
+        for c in nondoc_comments(&tame_text(rng, n)) {
+            must_change_case(o, &c, "random");
+        }
+    }
+}
+
 fn part_corr(o: &mut Outcome, rng: &mut Rng, thorough: bool) {
     // 1a. exhaustive over the hostile alphabet
     let texts = all_strings(ALPHA, if thorough { 6 } else { 5 });
@@ -598,6 +651,7 @@ const TEMPLATES: &[(&str, &str)] = &[
     ("params2", "pub fn q1<T: Clone>(@PI@first: T, @PI@second: &mut Vec<T>@PL@) -> Option<T> where T: Default {\n    None\n}\n\nextern \"C\" fn q2(@PI@a: i32, @PI@b: *const u8@PL@) {}\n\nimpl S {\n    pub fn q3(\n        @PB@self: Box<Self>,@PT@\n        @PB@(a, b): (u32, u32),@PT@\n        @PB@_: &str@PT@\n    @PE@) -> u32 {\n        a\n    }\n}\n\ntrait T2 {\n    fn q4(\n        @PB@&self,@PT@\n        @PB@other: &Self,@PT@\n    @PE@) -> bool;\n}\n"),
     ("args2", "fn f10() {\n    let a = x.first(@AI@1, @AI@2@AL@).second(@AI@3@AL@).third();\n    let b = Some(@AI@value@AL@);\n    let c = outer(@AI@inner(@AI@1@AL@), @AI@|z| z + 1, @AI@S { p: 1 }@AL@);\n    println!(@AI@\"{} {}\", @AI@a, @AI@b@AL@);\n    let d = vec![@AI@1, @AI@2, @AI@3@AL@];\n    x.call(\n        @AB@first_argument_name,@AT@\n        @AB@second_argument_name(1),@AT@\n    @AE@)?;\n    assert_eq!(\n        @AB@left,@AT@\n        @AB@right,@AT@\n    @AE@);\n}\n"),
     ("inside4", "fn f11(a: u32, v: Vec<u32>) -> Option<u32> {\n    @X{@let Some(x) = v.first() else { return None };@X}@\n    @X{@for (i, e) in v.iter().enumerate() { call(i, e); }@X}@\n    @X{@let w = if let Some(y) = v.get(1) { *y } else { 0 };@X}@\n    @X{@let t: (u32, &str) = (1, \"s\");@X}@\n    @X{@v.iter().filter(|e| **e > a).map(|e| e * 2).sum::<u32>();@X}@\n    @X{@Some(a + w)@X}@\n}\n"),
+    ("inside5", "fn f12(a: u32, b: u32, v: &[Vec<u32>], p: &u32, flag: bool) -> u32 {\n    @X{@let wide = a as u64 as i64;@X}@\n    @X{@let cell = v[0][a as usize];@X}@\n    @X{@let neg = -(a as i64) + !flag as i64;@X}@\n    @X{@let der = *p + &b;@X}@\n    @X{@let rng = (a..=b, ..b);@X}@\n    @X{@let arr: [u8; 4] = [0; 4];@X}@\n    @X{@let s2 = S { p: a, ..base };@X}@\n    @X{@let got = loop { break a + b; };@X}@\n    @X{@if a == b && flag { return a - b; }@X}@\n    @X{@match (a, b) { (0, _) => 1, _ => 2 }@X}@\n}\n"),
     ("inside3", "fn f7(mut a: u32, b: u32) {\n    @X{@while a < b { a += 1; }@X}@\n    @X{@let cl = move |q: u32| -> u32 { q + 1 };@X}@\n    @X{@let u = unsafe { f() };@X}@\n    @X{@x.y.z = !w && (a || b);@X}@\n    @X{@println!(\"{}\", a);@X}@\n    @X{@let n = -a;@X}@\n}\n"),
 ];
 
@@ -662,7 +716,9 @@ fn templates() -> Vec<Template> {
     TEMPLATES.iter().map(|(n, t)| parse_template(n, t)).collect()
 }
 
-const STYLES: &[&str] = &["L", "B", "BM", "BS", "LL", "LB", "BL", "BB", "Lt", "Bt", "L4", "nLn", "nBn"];
+/// Comment styles.  B3 / B4 / B8 / BX / BE / BE3 / L5 look like doc comments but are ordinary comments for
+/// rustc_lexer (three or more asterisks, `/**/`, four or more slashes): `nondoc_style_ok` asks the lexer.
+const STYLES: &[&str] = &["L", "B", "BM", "BS", "LL", "LB", "BL", "BB", "Lt", "Bt", "L4", "nLn", "nBn", "B3", "B4", "B8", "BX", "BE", "BE3", "L5"];
 const GEN_WIDTHS: &[usize] = &[20, 25, 30, 35, 40, 50, 60, 80, 100, 200];
 const GEN_OPTS: &[(&str, &[(&str, &str)])] = &[
     ("base", &[]),
@@ -742,6 +798,13 @@ fn render(t: &Template, hole: &Hole, style: &str) -> String {
         "Lt" => vec![format!("//c03m1 alpha1")],
         "Bt" => vec![format!("/*c03m1 alpha1*/")],
         "L4" => vec![format!("//// {}", comment_body(1))],
+        "L5" => vec![format!("///// c03m1 alpha1 /////")],
+        "B3" => vec![format!("/*** {} ***/", comment_body(1))],
+        "B4" => vec![format!("/**** c03m1 alpha1 */")],
+        "B8" => vec![format!("/******** c03m1 ********/")],
+        "BX" => vec![format!("/****************\n{} * c03m1 boxed *\n{} ****************/", indent, indent)],
+        "BE" => vec!["/**/".to_string()],
+        "BE3" => vec!["/***/".to_string()],
         _ => unreachable!(),
     };
     let mut ins = String::new();
@@ -789,6 +852,19 @@ fn render(t: &Template, hole: &Hole, style: &str) -> String {
         }
     }
     format!("{}{}{}", &text[..hole.pos], ins, &text[hole.pos..])
+}
+
+/// rustc_lexer classifies every comment this style renders as a non-doc comment (asked once per run:
+/// a style that the lexer takes for a doc comment is not part of the universe)
+fn nondoc_style_ok(ts: &[Template], style: &str) -> bool {
+    let t = &ts[0];
+    let src = render(t, &t.holes[0], style);
+    let all: Vec<Tok> = lex(&src).into_iter().filter(|t| matches!(t.class, TokClass::LineComment { .. } | TokClass::BlockComment { .. })).collect();
+    !all.is_empty() && all.iter().all(|t| matches!(t.class, TokClass::LineComment { doc: false } | TokClass::BlockComment { doc: false, terminated: true }))
+}
+
+fn styles_of(ts: &[Template]) -> Vec<&'static str> {
+    STYLES.iter().copied().filter(|s| nondoc_style_ok(ts, s)).collect()
 }
 
 /// the non-doc comment tokens of a text (rustc_lexer)
@@ -841,10 +917,11 @@ fn gen_elem(t: &Template, hi: usize, style: &str, width: usize, opt: &str) -> El
 
 /// every element of the generated universe
 fn gen_universe(ts: &[Template]) -> Vec<Elem> {
+    let ts_ref = ts;
     let mut v = vec![];
     for t in ts {
         for hi in 0..t.holes.len() {
-            for style in STYLES {
+            for style in &styles_of(ts_ref) {
                 for w in GEN_WIDTHS {
                     for (opt, _) in GEN_OPTS {
                         v.push(gen_elem(t, hi, style, *w, opt));
@@ -993,19 +1070,20 @@ fn part_search(o: &mut Outcome, rng: &mut Rng, tier: &str) {
     }
     let nholes: usize = ts.iter().map(|t| t.holes.len()).sum();
     o.count_n("gen:holes", nholes as u64);
-    o.count_n("gen:universe", (nholes * STYLES.len() * GEN_WIDTHS.len() * GEN_OPTS.len()) as u64);
+    o.count_n("gen:universe", (nholes * styles_of(&ts).len() * GEN_WIDTHS.len() * GEN_OPTS.len()) as u64);
     // the elements of this run: every (hole, style) with 4 (quick) / 60 (thorough) seeded (width, option
     // set) choices out of 300; the whole universe (2,671,500 elements) is run by `--tier sweep-gen`
     let mut chosen: Vec<Elem> = vec![];
     let mut seen: HashSet<String> = HashSet::new();
+    let ts_ref: &[Template] = &ts;
     let reps = if thorough { 60 } else { 4 };
     for t in &ts {
         for hi in 0..t.holes.len() {
-            for style in STYLES {
+            for style in &styles_of(ts_ref) {
                 for _ in 0..reps {
                     let w = *rng.pick(GEN_WIDTHS);
                     let opt = rng.pick(GEN_OPTS).0;
-                    if known_dirty_shape(style, opt).is_some() {
+                    if known_dirty_shape(style, opt, &t.holes[hi].tag).is_some() {
                         o.count("gen:known-dirty-shape-not-sampled");
                         continue;
                     }
@@ -1119,6 +1197,11 @@ fn part_search(o: &mut Outcome, rng: &mut Rng, tier: &str) {
         ("W1", Elem { id: "probe|W1".into(), src: "struct S1 {\n    /* c03m1 alpha1 beta gamma */\n    /* c03m2 alpha2 beta gamma */\n    a: u32,\n}\n".into(), cfg: vec![("wrap_comments".into(), "true".into()), ("max_width".into(), "20".into())], ordered: true, context: None }),
         ("W2", Elem { id: "probe|W2".into(), src: "fn p1( /* c03m1 alpha1 beta gamma */  // c03m2 alpha2 beta gamma\n    a: u32, b: u32, c: u32) {}\n".into(), cfg: vec![("wrap_comments".into(), "true".into()), ("max_width".into(), "25".into())], ordered: true, context: None }),
     ];
+    for fam in ["N1", "E1"] {
+        let elems = family_probe_elems(&ts, fam, if thorough { 400 } else { 60 });
+        let bad = measure(&elems, timeout);
+        o.probes.push(json!({"id": format!("C03-{}", fam), "fails": !bad.is_empty(), "what": format!("{} of {} enumerated elements of shape {} fail; first: {}", bad.len(), elems.len(), fam, bad.first().map(|x| format!("{} {}", x.0, x.1)).unwrap_or_default()), "detail": bad.first().and_then(|x| elems.iter().find(|e| e.id == x.0)).map(|e| json!({"src": e.src, "config": cfg_text(&e.cfg)}))}));
+    }
     for (k, e) in &fixed {
         let r = measure(&[e.clone()], timeout);
         o.probes.push(json!({"id": format!("C03-{}", k), "fails": !r.is_empty(), "what": format!("hand-written input of finding {}: {}", k, r.first().map(|x| x.1.clone()).unwrap_or_else(|| "comments preserved".into())), "detail": {"src": e.src, "config": cfg_text(&e.cfg)}}));
@@ -1129,24 +1212,56 @@ fn part_search(o: &mut Outcome, rng: &mut Rng, tier: &str) {
     }
 }
 
-/// W1: a block comment followed by a block comment on a later line, W2: `/* a */ // b` on one line — both
-/// re-flowed as ONE block comment by identify_comment under wrap_comments / normalize_comments (known
-/// findings C03-W1, C03-W2).  The seed-dependent generator stays away from these shapes; the elements of
-/// the universe measured dirty run as enumerated probes.
-fn known_dirty_shape(style: &str, opt: &str) -> Option<&'static str> {
+/// The shapes of the generated universe that are dirty on the pinned tree (known findings; every failing
+/// element of the last complete sweep falls under one of them, and nothing else fails):
+///  W1  a block comment followed by a block comment on a later line, W2 `/* a */ // b` on one line: both
+///      re-flowed as ONE block comment by identify_comment under wrap_comments / normalize_comments;
+///  N1  a banner comment (`/*** c ***/`, `/**** c */`, `/******** c ********/`, boxed multi-line): an
+///      ordinary comment for rustc_lexer, but comment_style() takes `/**` for a doc opener, so under
+///      wrap_comments / normalize_comments it is rewritten as a DOC comment (`/// * c **`, `/** * c ** */`);
+///  E1  an empty comment (`/**/`, `/***/`) inside a body statement: its payload is empty, so the safety net
+///      cannot see that the rewrite dropped it.
+/// The seed-dependent generator stays away from these shapes; each runs as an enumerated probe.
+fn known_dirty_shape(style: &str, opt: &str, tag: &str) -> Option<&'static str> {
     let reflow = matches!(opt, "wrap" | "wrapnorm" | "norm");
     match style {
         "BB" if reflow => Some("W1"),
         "BL" if reflow => Some("W2"),
+        "B3" | "B4" | "B8" | "BX" if reflow => Some("N1"),
+        "BE" | "BE3" if tag == "X" => Some("E1"),
         _ => None,
     }
+}
+
+/// a fixed, seed-independent sample of the elements of a dirty shape (every 5th hole of every template,
+/// widths 20 / 50 / 100, the option sets of the shape), at most `cap`
+fn family_probe_elems(ts: &[Template], family: &str, cap: usize) -> Vec<Elem> {
+    let mut v = vec![];
+    for t in ts {
+        for hi in (0..t.holes.len()).step_by(5) {
+            let tag = t.holes[hi].tag.clone();
+            for style in styles_of(ts) {
+                for opt in ["base", "wrap", "norm"] {
+                    if known_dirty_shape(style, opt, &tag) != Some(match family { "N1" => "N1", "E1" => "E1", "W1" => "W1", _ => "W2" }) {
+                        continue;
+                    }
+                    for w in [20usize, 50, 100] {
+                        v.push(gen_elem(t, hi, style, w, opt));
+                    }
+                }
+            }
+        }
+    }
+    // spread over the templates: take every k-th
+    let k = (v.len() / cap).max(1);
+    v.into_iter().step_by(k).take(cap).collect()
 }
 
 /// the probe (= known finding) a listed dirty element belongs to
 fn probe_group(id: &str) -> String {
     let p: Vec<&str> = id.split('|').collect();
     if p[0] == "g" && p.len() == 6 {
-        if let Some(f) = known_dirty_shape(p[3], p[5]) {
+        if let Some(f) = known_dirty_shape(p[3], p[5], p[2].split(':').nth(1).unwrap_or("?")) {
             return f.to_string();
         }
         // any other listed element of the generated universe gets a probe of its own template and
@@ -1205,6 +1320,8 @@ pub fn run(tier: &str, seed: u64, out: &Path) -> i32 {
     }
     if which.contains("corr") {
         part_corr(&mut o, &mut r1, thorough);
+        let mut r3 = r1.fork();
+        part_must_change(&mut o, &mut r3, thorough);
     }
     if which.contains("search") {
         part_search(&mut o, &mut r2, tier);
@@ -1217,6 +1334,8 @@ pub fn run(tier: &str, seed: u64, out: &Path) -> i32 {
         crate::lists_corr::itemize_cases(&mut o, &mut r, th);
         crate::lists_corr::cases(&mut o, &mut r, th);
         crate::strings_corr::cases_c03(&mut o, &mut r, th);
+        crate::missed_corr::cases_c03(&mut o, &mut r, th);
+        crate::vertical_corr::cases(&mut o, &mut r, th);
     }
     o.finish(out, jobs())
 }
